@@ -23,6 +23,9 @@ def make_cases(tier, profile):
     cases.append(dict(name='OPER then -o then teardown (counters)', prelude=[('alice', 'OPER opname goodpw'), ('alice', 'MODE alice -o')], line='QUIT', then=['remove_user'],
                       judges=['no_panic', 'inv', 'teardown'], spec=dict(base, operators=ops)))
     cases.append(dict(name='QUIT + teardown (counters)', line='QUIT', then=['remove_user'], judges=['no_panic', 'inv'], spec=base))
+    # ... of a user holding any combination of +i, +o, +O (operators configured, resp. +O by default modes)
+    cases.append(dict(name='QUIT + teardown (counters, operators configured)', line='QUIT', then=['remove_user'], judges=['no_panic', 'inv'], spec=dict(base, operators=ops)))
+    cases.append(dict(name='QUIT + teardown (counters, default +O)', line='QUIT', then=['remove_user'], judges=['no_panic', 'inv'], spec=dict(base, operators=ops, default_user_modes={'local_oper': True})))
     cases.append(dict(name='LUSERS after OPER', prelude=[('alice', 'OPER opname goodpw')], line='LUSERS', judges=['no_panic', 'lusers'], spec=dict(base, operators=ops)))
     cases.append(dict(name='LUSERS after MODE +i', prelude=[('alice', 'MODE alice +i')], line='LUSERS', judges=['no_panic', 'lusers'], spec=base))
     # registration itself moves the counters (default modes +i / +O / +o count at once)
